@@ -212,6 +212,9 @@ def lean_build_and_audit(prop_id, extra_targets=(), leanchecker=False):
         cmd = ['lake', 'env', 'leanchecker'] + mods
         res.cmds.append('cd lean && ' + ' '.join(cmd))
         rc, out = sh(cmd, cwd=LEAN, timeout=3600)
+        if rc != 0 and 'object file' in out and 'does not exist' in out:
+            # a compiled module vanished between the build and the re-check: a broken run, not a finding
+            raise HarnessError('leanchecker could not read a module that was just built: ' + out[-400:])
         if rc != 0:
             for n in res.obligations:
                 res.failed[n] = 'leanchecker: ' + out[-300:]
@@ -488,20 +491,37 @@ def run_check(prop, tier='quick', seed=0, replay=None):
 
     # ---- 1. Lean build + audit ---------------------------------------------------------
     ext = None
+    foreign = os.path.realpath(REPO) != os.path.realpath('/repo')
+    # the generated kernels live in the one Lean project: runs (possibly against different working trees) take turns
+    # for regenerate + build + audit; a run against a scratch copy puts the kernels of /repo back before it lets go
+    import fcntl
+    os.makedirs(os.path.join(LEAN, '.lake'), exist_ok=True)
+    lock = open(os.path.join(LEAN, '.lake', 'verif-build.lock'), 'w')
+    fcntl.flock(lock, fcntl.LOCK_EX)
     try:
-        ext = prop.extract(ctx)
-    except Exception as e:  # pylint: disable=broad-except
-        ext = {'status': 'lost', 'reason': 'extractor raised %r' % (e,)}
-    extra = list(prop.extra_targets) if (ext and ext.get('status') == 'ok') else []
-    lean = lean_build_and_audit(prop.id, extra_targets=extra, leanchecker=(tier == 'thorough'))
-    if not lean.build_ok and extra:
-        # the extracted kernels may be what broke: retry without them
-        lean2 = lean_build_and_audit(prop.id, leanchecker=False)
-        if lean2.build_ok:
-            ext = dict(ext or {}, status='lost',
-                       reason='extracted kernel lemmas no longer check: ' + _first_error(lean.build_log))
-            lean2.cmds = lean.cmds + lean2.cmds
-            lean = lean2
+        try:
+            ext = prop.extract(ctx)
+        except Exception as e:  # pylint: disable=broad-except
+            ext = {'status': 'lost', 'reason': 'extractor raised %r' % (e,)}
+        extra = list(prop.extra_targets) if (ext and ext.get('status') == 'ok') else []
+        lean = lean_build_and_audit(prop.id, extra_targets=extra, leanchecker=(tier == 'thorough'))
+        if not lean.build_ok and extra:
+            # the extracted kernels may be what broke: retry without them
+            lean2 = lean_build_and_audit(prop.id, leanchecker=False)
+            if lean2.build_ok:
+                ext = dict(ext or {}, status='lost',
+                           reason='extracted kernel lemmas no longer check: ' + _first_error(lean.build_log))
+                lean2.cmds = lean.cmds + lean2.cmds
+                lean = lean2
+        if foreign and prop.extracted:
+            try:
+                import extract
+                extract.generate(prop.id, '/repo')
+            except Exception:  # pylint: disable=broad-except
+                pass
+    finally:
+        fcntl.flock(lock, fcntl.LOCK_UN)
+        lock.close()
     if not lean.driver_ok:
         print(lean.build_log[-3000:])
         raise HarnessError('model driver does not build')
